@@ -132,6 +132,7 @@ static void sweep(void)
 	model_t m = { 0, 0, 0, 0 };
 
 	vh_case_key("sweep-walk-to-start");
+		vh_case_budget(300);
 	/* reach (state 0, P == Lfirst): whole clicks by valid steps, then a
 	 * half click through an invalid jump if needed */
 	int dir = Lfirst >= 0 ? 1 : -1;
@@ -209,7 +210,8 @@ static void walks(void)
 		char key[64];
 		snprintf(key, sizeof(key), "walk:case=%lld", c);
 		vh_case_key(key);
-		vh_case_replay("--only-case %lld", c);
+		vh_case_replay("--extra walk --only-case %lld", c);
+		vh_case_budget(600);
 		int allow_jumps = (c % 3) != 0;
 		int drift = (int)vh_below(&rng, 3) - 1; /* -1,0,+1 */
 		int64_t minP = 0, maxP = 0;
